@@ -1560,6 +1560,16 @@ fn c06_finding_family(w: &mut W, rng: &mut Rng) {
         declared = t1.fields.len() + extra;
         present = t1.fields.len();
     }
+    // half of the time the id is already cached from a well-formed record announcing the same
+    // field count: the (listed) greedy definition must *replace* it, not be merged with it
+    if rng.chance(1, 2) {
+        let pre = IpfixTmpl { id: t1.id, fields: (0..declared).map(|i| IpfixSpec { type_num: 1 + (i % 2) as u16, len: 4, enterprise: None }).collect() };
+        if !pre.fields.is_empty() {
+            let m = IpfixMsg { export_time: 1, seq: 0, domain: 1, sets: vec![IpfixSet::Template { records: vec![pre], padding: vec![] }] };
+            sut.parse(0, &m.wire());
+            w.rep.count("family.field_count-not-enforced.predefined", 1);
+        }
+    }
     let before = snap(&sut.parsers[0]);
     sut.parse(0, &msg.wire());
     w.rep.count("family.field_count-not-enforced", 1);
@@ -1578,6 +1588,8 @@ fn c06_finding_family(w: &mut W, rng: &mut Rng) {
                 w.rep.finding("C06|ipfix|template|field_count-not-enforced|model=greedy-to-end-of-set", || sut.replay_json());
             } else if variant == 0 && g.fields.len() == declared {
                 // repaired behaviour: first record cached as sent
+            } else if variant == 1 && g.fields.len() == declared && g.fields.iter().all(|f| f.field_length == 4 && f.field_type_number <= 2 && f.enterprise_number.is_none()) {
+                // repaired behaviour: the incomplete record was not cached, the earlier definition stays
             } else {
                 let d = div("cache/ipfix.templates", "entry", format!("id {}: cached {} fields with field_count {}, neither as sent nor the listed greedy model ({} present)", t1.id, g.fields.len(), g.field_count, present));
                 w.rep.violation(sig("C06", &d), &d, sut.replay_json());
